@@ -70,6 +70,40 @@ def run(ctx):
             d = docgen.gen_doc(rng)
             bad = rng.choice(['<desc>x & y</desc>', '<title>a &b c</title>', '<1a/>', '<rect wh="2" text="a"/><b@d/>', '<text>AT&T</text>'])
             docs.append((d.replace('</svg>', bad + '</svg>'), 'malformed-input'))
+    # ---- byte streams: input whose events end inside a multi-byte sequence (or hold other invalid bytes). Whenever the
+    #      transform of a byte stream succeeds, the bytes written are UTF-8 and well-formed
+    bcases = []
+    tails = [b'\xc3', b'\xe2\x82', b'\xf0\x9f\x98', b'\xff', b'\xc3\xa9']
+    for i in range(60 if quick else 1200):
+        t = rng.choice(tails)
+        ns = rng.choice([b' xmlns="http://www.w3.org/2000/svg"', b''])
+        form = rng.below(8)
+        if form == 0: b = b'<?editor caf' + t + b'?><svg' + ns + b'><rect width="1" height="1"/></svg>'
+        elif form == 1: b = b'<svg' + ns + b'><?pi x' + t + b'?><rect width="1" height="1"/></svg>'
+        elif form == 2: b = b'<!DOCTYPE svg' + t + b'><svg' + ns + b'/>'
+        elif form == 3: b = b'<?xml version="1.0" encoding="UTF-8"' + t + b'?><svg' + ns + b'><g/></svg>'
+        elif form == 4: b = b'<svg' + ns + b'><!-- c' + t + b'--><g/></svg>'
+        elif form == 5: b = b'<svg' + ns + b'><desc>t' + t + b'</desc></svg>'
+        elif form == 6: b = b'<svg' + ns + b'><![CDATA[x' + t + b']]></svg>'
+        else: b = b'<svg' + ns + b'><g title="a' + t + b'"/></svg>'
+        bcases.append(Case('b%d' % i, 'docbytes', [lib.enc_cfg({}), b.hex()], {'bytes': b}))
+    bres = lib.run_impl(bcases)
+    for c in bcases:
+        st['evaluations'] += 1
+        r = bres.get(c.id)
+        if not r or r[0] not in ('OK', 'ERR'):
+            yield {'kind': 'oracle', 'what': 'transform_stream did not return on %r: %s' % (c.meta['bytes'], r), 'case': c.to_json(), 'observed': r, 'expected': 'Ok or Err'}
+        elif r[0] == 'OK':
+            out = bytes.fromhex(r[1])
+            try:
+                out.decode('utf-8')
+                bad = None
+            except UnicodeDecodeError as e:
+                bad = str(e)
+            if bad:
+                yield {'kind': 'oracle', 'what': 'transform_stream succeeded on %r and wrote bytes that are not UTF-8 (%s): %r' % (c.meta['bytes'], bad, out[:300]),
+                       'case': c.to_json(), 'observed': out.hex()[:600], 'expected': 'an error, or well-formed UTF-8 XML', 'doc_kind': 'bytes', 'msg': 'not utf-8'}
+    dist['byte_stream_inputs'] = len(bcases)
     cases = []
     for i, (d, kind) in enumerate(docs):
         for j in range(2):
